@@ -12,7 +12,9 @@ GenHeader ==
   (* mostly an eligible sealer; otherwise, half of the time, a validator of the set the model holds ineligible (a recent sealer) *)
   \E sg \in {IF Eligibles # {} /\ Pick(1..6) # 1 THEN Pick(Eligibles)
               ELSE IF validators \ Eligibles # {} /\ Pick(1..2) = 1 THEN Pick(validators \ Eligibles) ELSE Pick(Vals)} :
-  \E df \in {IF validators # {} /\ sg \in validators /\ Pick(1..8) # 1 THEN (IF InTurn(validators, number, sg) THEN 2 ELSE 1) ELSE Pick({1, 2})} :
+  (* mostly the difficulty that matches the turn; otherwise 1 or 2, or 101 / 102: a value wider than 64 bits whose low 64 bits are 1 / 2 *)
+  \E df \in {IF validators # {} /\ sg \in validators /\ Pick(1..8) # 1 THEN (IF InTurn(validators, number, sg) THEN 2 ELSE 1)
+              ELSE IF validators # {} /\ sg \in validators /\ Pick(1..2) = 1 THEN 100 + (IF InTurn(validators, number, sg) THEN 2 ELSE 1) ELSE Pick({1, 2, 101, 102})} :
   \E ex \in {IF n % Epoch = 0 THEN (IF Pick(1..10) = 1 THEN {} ELSE IF Pick(1..3) = 1 THEN Vals ELSE Pick((SUBSET Vals) \ {{}})) ELSE (IF Pick(1..10) = 1 THEN Pick((SUBSET Vals) \ {{}}) ELSE {})} :
   \E pk \in {Pick(1..10) # 1} : \E ck \in {Pick(1..10) # 1} : \E sk \in {Pick(1..12) # 1} :
     LET hd == [number |-> n, parentOK |-> pk, signer |-> sg, coinbaseOK |-> ck, diff |-> df, extra |-> ex, structOK |-> sk] IN
